@@ -58,6 +58,7 @@ func (e *Engine) load(pkgPaths []string) error {
 	if nerr > 0 {
 		return fmt.Errorf("%d package load errors", nerr)
 	}
+	packages.Visit(pkgs, nil, func(p *packages.Package) { e.loaded = append(e.loaded, p) })
 	prog, spkgs := ssautil.AllPackages(pkgs, ssa.InstantiateGenerics|ssa.GlobalDebug)
 	prog.Build()
 	e.prog = prog
